@@ -143,6 +143,30 @@ def trap_kind(msg):
     return "other"
 
 
+FCMP = ("eq", "ne", "lt", "le", "gt", "ge")
+
+
+def key_op(op):
+    """Locus name of an operator: width-agnostic (i32/i64 -> i*, f32/f64 -> f*), immediates and skeleton result types dropped,
+    families div/rem/trunc/trunc_sat/load/store/float-compare collapsed."""
+    base = op.split("@")[0]
+    for suf in ("-i32", "-f64"):
+        if base.endswith(suf):
+            base = base[:-len(suf)]
+    if "." in base and base.split(".")[0] in ("i32", "i64", "f32", "f64"):
+        t, name = base.split(".", 1)
+        for fam in ("div", "rem", "trunc_sat", "load", "store"):
+            if name.startswith(fam):
+                return t[0] + "*." + fam
+        if name.startswith("trunc_f"):
+            return "i*.trunc_f"
+        if t[0] == "f" and name in FCMP:
+            return "f*.cmp"
+        name = name.replace("32", "*").replace("64", "*") if ("_i" in name or "_f" in name) else name
+        return t[0] + "*." + name
+    return base
+
+
 def op_family(op):
     """i32.div_s -> div ; i64.trunc_f32_u -> trunc ; i32.load8_s@o4 -> load ; others unchanged."""
     base = op.split("@")[0]
@@ -169,7 +193,7 @@ def numeric_units(tier):
     return out
 
 
-N_PER_MODULE = 12
+N_PER_MODULE = 34
 
 
 def case_N(tier, chunk, only=None):
@@ -262,7 +286,7 @@ def case_M(tier, variant):
     return {"sec": "M", "m": m, "calls": calls, "info": info, "stateless": False, "wit": {"tier": tier, "variant": variant}, "units": None, "rebuild": None}
 
 
-C_PER_MODULE = 30
+C_PER_MODULE = 60
 
 
 def skeleton_units(depth):
@@ -279,10 +303,8 @@ def case_C(depth, units, base_wit):
     for j, (tag, ft, l, b, nc, ui) in enumerate(units):
         op = sk_atoms(tag)[0]
         for ci, args in enumerate(W.skeleton_args(nc, ui, rich=True)):
-            # the trace global is cleared before every call, which makes the calls independent of each other
-            calls.append(("reset", [], None, False))
-            info.append({"op": "reset", "unit": tag, "ci": ci})
-            calls.append(("e%d" % (3 + j), list(args), ft.results[0] if ft.results else None, True))
+            # the trace global is cleared right before every call, which makes the calls independent of each other
+            calls.append(("e%d" % (3 + j), list(args), ft.results[0] if ft.results else None, True, "reset"))
             info.append({"op": op, "unit": tag, "ci": ci})
     return {"sec": "C", "m": m, "calls": calls, "info": info, "stateless": True, "wit": base_wit, "units": units,
             "rebuild": lambda us: case_C(depth, us, base_wit)}
@@ -374,7 +396,7 @@ def extra_cases():
     out.append(("call-indirect", build_ci))
     # 6. globals of every type: initial value, set/get through functions, exported globals
     gl = [W.Glob(I32, True, i32c(-7)), W.Glob(I64, True, W.const(I64, 2 ** 40 + 5)), W.Glob(F32, True, W.const(F32, f32b(1.5))),
-          W.Glob(F64, True, W.const(F64, f64b(-2.25))), W.Glob(I32, False, i32c(99)), W.Glob(F64, False, W.const(F64, 0xFFF8000000000000))]
+          W.Glob(F64, True, W.const(F64, f64b(-2.25))), W.Glob(I32, False, i32c(99)), W.Glob(F64, False, W.const(F64, f64b(0.1)))]
     fs, calls = [], []
     for gi, vt in enumerate(W.VTS):
         fs.append((FT((), (vt,)), (), [Ins("global.get", gi)]))
@@ -388,6 +410,14 @@ def extra_cases():
             calls.append(("e%d" % (2 * gi), [], vt))
     calls += [("e8", [], I32), ("e9", [], F64)]
     case("globals", fs, calls, {"globs": gl, "exports": [("g%d" % i, "global", i) for i in range(6)]})
+    # 6b. non-finite global initialisers and constants
+    gl = [W.Glob(F64, False, W.const(F64, 0xFFF8000000000000)), W.Glob(F32, True, W.const(F32, 0x7F800000))]
+    fs = [(FT((), (F64,)), (), [Ins("global.get", 0)]), (FT((), (F32,)), (), [Ins("global.get", 1)])]
+    case("globals-nonfinite", fs, [("e0", [], F64), ("e1", [], F32)], {"globs": gl, "exports": [("g0", "global", 0), ("g1", "global", 1)]})
+    cunits = [("const-%s-%s" % (vt, lab), FT((), (vt,)), [W.const(vt, v)], [()]) for vt, lab, v in (
+        (F64, "nan", 0x7FF8000000000000), (F64, "inf", 0x7FF0000000000000), (F64, "neg-inf", 0xFFF0000000000000), (F32, "nan", 0x7FC00000),
+        (F32, "neg-inf", 0xFF800000), (F64, "big", f64b(1e308)), (F32, "neg-zero", f32b(-0.0)), (F64, "denormal", 1))]
+    out.append(("consts-nonfinite", lambda: build_plain("X", cunits, {"name": "consts-nonfinite"})))
     # 7. select / drop / local.tee / nop / return on every type
     fs, calls = [], []
     for vt in W.VTS:
@@ -545,11 +575,14 @@ def frame_of(ex):
 
 def one_call(inst, m, spec, log, call):
     from vf.core import cpu_limit, CpuTimeout
-    name, args, ret, snap = call
+    name, args, ret, snap = call[:4]
+    pre = call[4] if len(call) > 4 else None
     rec = {}
     before = len(log)
     try:
         with cpu_limit(30):
+            if pre:
+                inst.exports[pre]()
             f = inst.exports[name]
             r = f(*[to_py(a) for a in args])
         rec["out"] = ("value",) + from_py(ret, r)
@@ -577,86 +610,120 @@ def _send(fd, obj):
     os.write(fd, struct.pack("<I", len(data)) + data)
 
 
-def _child(fd, case, wasm, spec, todo, risky, target):
-    """Runs in a forked child: instantiate, perform calls[start:], report each outcome through the pipe.
+def _read_records(fd):
+    chunks = []
+    while True:
+        b = os.read(fd, 1 << 16)
+        if not b:
+            break
+        chunks.append(b)
+    data = b"".join(chunks)
+    pos, out = 0, []
+    while pos + 4 <= len(data):
+        (ln,) = struct.unpack_from("<I", data, pos)
+        if pos + 4 + ln > len(data):
+            break
+        out.append(pickle.loads(data[pos + 4:pos + 4 + ln]))
+        pos += 4 + ln
+    return out
 
-    Maximal runs of consecutive calls on which V8 traps are executed in a forked grandchild, so that code which fails
+
+def execute(emit, case, wasm, spec, todo, risky, target):
+    """Instantiate on `target`, perform the calls in `todo` order and emit one record per event.
+
+    Maximal runs of consecutive calls on which V8 traps are executed in a forked process, so that code which fails
     to trap can neither kill this process nor corrupt the instance state used by the following calls."""
-    import resource
-    from vf.core import exc_key, cpu_limit, CpuTimeout
-    resource.setrlimit(resource.RLIMIT_CPU, (900, 920))
-    unraised = []
-    sys.unraisablehook = lambda u: unraised.append(type(u.exc_value).__name__)
-    devnull = os.open(os.devnull, os.O_WRONLY)
-    os.dup2(devnull, 1)
-    os.dup2(devnull, 2)
-    log = []
-    try:
-        with cpu_limit(600):
-            inst = instantiate_ppci(wasm, spec, target, log)
-    except CpuTimeout:
-        _send(fd, ("inst", ("CpuTimeout", "instantiate exceeded 600 s CPU", "?", "K/hang")))
-        return
-    except Exception as ex:  # noqa
-        _send(fd, ("inst", (type(ex).__name__, str(ex)[:160], frame_of(ex), exc_key("K", ex))))
-        return
-    _send(fd, ("inst", None))
-    calls = case["calls"]
-
-    def perform(i):
-        del unraised[:]
-        rec = one_call(inst, case["m"], spec, log, calls[i])
-        if unraised:
-            rec["callback_exc"] = list(unraised)
-        return rec
-
     import mmap
+    from vf.core import exc_key, cpu_limit, CpuTimeout
     from vf.gen import wasmgen as W
-    mem_name = W.exported_memory(case["m"])
-    shared = mmap.mmap(-1, 8)
-    crashes = {}
+    unraised = []
+    old_hook = sys.unraisablehook
+    sys.unraisablehook = lambda u: unraised.append(type(u.exc_value).__name__)
+    try:
+        log = []
+        try:
+            with cpu_limit(600):
+                inst = instantiate_ppci(wasm, spec, target, log)
+        except CpuTimeout:
+            emit(("inst", ("CpuTimeout", "instantiate exceeded 600 s CPU", "?", "K/hang")))
+            return
+        except Exception as ex:  # noqa
+            emit(("inst", (type(ex).__name__, str(ex)[:160], frame_of(ex), exc_key("K", ex))))
+            return
+        emit(("inst", None))
+        calls = case["calls"]
 
-    def crash_class(i):
-        return (op_family(case["info"][i]["op"]), risky[i])
+        def perform(i):
+            del unraised[:]
+            rec = one_call(inst, case["m"], spec, log, calls[i])
+            if unraised:
+                rec["callback_exc"] = list(unraised)
+            return rec
 
-    pos = 0
-    nt = len(todo)
-    while pos < nt:
-        i = todo[pos]
-        if risky[i]:
+        mem_name = W.exported_memory(case["m"])
+        shared = mmap.mmap(-1, 8)
+        crashes = {}
+
+        def crash_class(i):
+            return (op_family(case["info"][i]["op"]), risky[i])
+
+        pos = 0
+        nt = len(todo)
+        while pos < nt:
+            i = todo[pos]
+            if not risky[i]:
+                emit(("begin", i))
+                emit(("call", i, perform(i)))
+                pos += 1
+                continue
             end = pos
             while end < nt and risky[todo[end]]:
                 end += 1
             k = pos
             saved = None
             if target == "native" and mem_name is not None:
-                # ppci's native memory is a MAP_SHARED anonymous mapping: writes of a forked grandchild would be visible here
+                # ppci's native memory is a MAP_SHARED anonymous mapping: writes of a forked process would be visible here
                 try:
                     mo = inst.exports[mem_name]
                     saved = bytes(mo.read(0, mo.size() * 65536))
                 except Exception:  # noqa
                     saved = None
             while k < end:
-                # a defect class that already killed CRASH_CAP grandchildren is not exercised again in this case
+                # a defect class that already killed CRASH_CAP processes is not exercised again in this case
                 while k < end and crashes.get(crash_class(todo[k]), 0) >= CRASH_CAP:
-                    _send(fd, ("call", todo[k], {"out": ("skipped-crash-class",)}))
+                    emit(("call", todo[k], {"out": ("skipped-crash-class",)}))
                     k += 1
                 if k >= end:
                     break
                 shared[:8] = struct.pack("<q", -1)
+                r, w = os.pipe()
+                sys.stdout.flush()
+                sys.stderr.flush()
                 pid = os.fork()
                 if pid == 0:
-                    for q in range(k, end):
-                        if crashes.get(crash_class(todo[q]), 0) >= CRASH_CAP:
-                            _send(fd, ("call", todo[q], {"out": ("skipped-crash-class",)}))
-                            continue
-                        shared[:8] = struct.pack("<q", q)
-                        _send(fd, ("call", todo[q], perform(todo[q])))
-                    os._exit(0)
+                    code = 0
+                    try:
+                        os.close(r)
+                        devnull = os.open(os.devnull, os.O_WRONLY)
+                        os.dup2(devnull, 1)
+                        os.dup2(devnull, 2)
+                        for q in range(k, end):
+                            if crashes.get(crash_class(todo[q]), 0) >= CRASH_CAP:
+                                _send(w, ("call", todo[q], {"out": ("skipped-crash-class",)}))
+                                continue
+                            shared[:8] = struct.pack("<q", q)
+                            _send(w, ("call", todo[q], perform(todo[q])))
+                    except BaseException:  # noqa
+                        code = 3
+                    os._exit(code)
+                os.close(w)
+                for rec in _read_records(r):
+                    emit(rec)
+                os.close(r)
                 _, status = os.waitpid(pid, 0)
                 if os.WIFSIGNALED(status):
                     q = max(k, struct.unpack("<q", shared[:8])[0])
-                    _send(fd, ("call", todo[q], {"out": ("crash", signal.Signals(os.WTERMSIG(status)).name)}))
+                    emit(("call", todo[q], {"out": ("crash", signal.Signals(os.WTERMSIG(status)).name)}))
                     cc = crash_class(todo[q])
                     crashes[cc] = crashes.get(cc, 0) + 1
                     k = q + 1
@@ -670,67 +737,71 @@ def _child(fd, case, wasm, spec, todo, risky, target):
                 except Exception:  # noqa
                     pass
             pos = end
-            continue
-        _send(fd, ("begin", i))
-        _send(fd, ("call", i, perform(i)))
-        pos += 1
-    _send(fd, ("final", snapshot(inst, case["m"])))
+        emit(("final", snapshot(inst, case["m"])))
+    finally:
+        sys.unraisablehook = old_hook
 
 
 def run_target(case, wasm, spec, risky, target):
-    """Execute the case on one ppci target inside forked children; survives crashes of the generated code.
+    """Execute the case on one ppci target.  python: in this process (only the calls on which V8 traps are forked off);
+    native: inside a forked child, restarted after a crash, because generated machine code can kill the process.
 
-    Stateless cases run the calls on which V8 traps last (one grandchild for all of them); stateful cases keep the order."""
+    Stateless cases run the calls on which V8 traps last (one forked process for all of them); stateful cases keep the order."""
     n = len(case["calls"])
     calls = [None] * n
     res = {"inst_error": None, "calls": calls, "final": None}
     todo = list(range(n))
     if case["stateless"]:
         todo.sort(key=lambda i: bool(risky[i]))
-    restarts = 0
-    while True:
-        r, w = os.pipe()
-        pid = os.fork()
-        if pid == 0:
-            os.close(r)
-            code = 0
-            try:
-                _child(w, case, wasm, spec, todo, risky, target)
-            except BaseException:  # noqa
-                code = 3
-            os._exit(code)
-        os.close(w)
-        chunks = []
-        while True:
-            b = os.read(r, 1 << 16)
-            if not b:
-                break
-            chunks.append(b)
-        os.close(r)
-        _, status = os.waitpid(pid, 0)
-        data = b"".join(chunks)
-        pos, begun, finished = 0, None, False
-        got_inst = False
-        while pos + 4 <= len(data):
-            (ln,) = struct.unpack_from("<I", data, pos)
-            if pos + 4 + ln > len(data):
-                break
-            rec = pickle.loads(data[pos + 4:pos + 4 + ln])
-            pos += 4 + ln
+
+    def absorb(records):
+        begun, finished, got_inst = None, False, False
+        for rec in records:
             if rec[0] == "inst":
                 got_inst = True
                 if rec[1] is not None:
                     res["inst_error"] = rec[1]
-                    return res
             elif rec[0] == "begin":
                 begun = rec[1]
             elif rec[0] == "call":
                 calls[rec[1]] = rec[2]
-                begun = None
+                if begun == rec[1]:
+                    begun = None
             elif rec[0] == "final":
                 res["final"] = rec[1]
                 finished = True
-        if finished:
+        return begun, finished, got_inst
+
+    if target == "python":
+        records = []
+        execute(records.append, case, wasm, spec, todo, risky, target)
+        absorb(records)
+        return res
+    restarts = 0
+    while True:
+        r, w = os.pipe()
+        sys.stdout.flush()
+        sys.stderr.flush()
+        pid = os.fork()
+        if pid == 0:
+            code = 0
+            try:
+                import resource
+                os.close(r)
+                resource.setrlimit(resource.RLIMIT_CPU, (900, 920))
+                devnull = os.open(os.devnull, os.O_WRONLY)
+                os.dup2(devnull, 1)
+                os.dup2(devnull, 2)
+                execute(lambda rec: _send(w, rec), case, wasm, spec, todo, risky, target)
+            except BaseException:  # noqa
+                code = 3
+            os._exit(code)
+        os.close(w)
+        records = _read_records(r)
+        os.close(r)
+        _, status = os.waitpid(pid, 0)
+        begun, finished, got_inst = absorb(records)
+        if finished or res["inst_error"] is not None:
             return res
         sig = signal.Signals(os.WTERMSIG(status)).name if os.WIFSIGNALED(status) else "exit%d" % os.WEXITSTATUS(status)
         if not got_inst:
@@ -761,7 +832,8 @@ def compare_call(case, i, ncall, rec, target, fails, p):
     """Append failure records for call i on `target`.  Returns an outcome token for coverage."""
     from vf.oracles import node
     info = case["info"][i]
-    name, args, ret, snap = case["calls"][i]
+    name, args, ret, snap = case["calls"][i][:4]
+    has_pre = len(case["calls"][i]) > 4 and bool(case["calls"][i][4])
     no = node.call_outcome(ncall)
     out = rec["out"]
     base = {"op": info["op"], "unit": info["unit"], "ci": info["ci"], "i": i, "target": target,
@@ -828,7 +900,9 @@ def compare_call(case, i, ncall, rec, target, fails, p):
         if len(nh) != len(ph) or any(a[0] != b[0] or len(a[1]) != len(b[1]) or any(not _same_or_bad(x, y) for x, y in zip(a[1], b[1])) for a, b in zip(nh, ph)):
             fail("host-calls", "args", "imported functions were called with %r, V8 calls them with %r" % (ph[:3], nh[:3]))
     # state
-    if snap and "snap" in ncall and "snap" in rec and ((no[0] == "trap" and out[0] == "trap") or (no[0] == "value" and out[0] == "value")):
+    # state after a call on which both sides trap is compared only when the call starts from a defined state (pre-reset):
+    # other trapping calls share a forked process with earlier calls that may have failed to trap
+    if snap and "snap" in ncall and "snap" in rec and ((no[0] == "trap" and out[0] == "trap" and has_pre) or (no[0] == "value" and out[0] == "value")):
         d = snapshot_difference(ncall["snap"], rec["snap"], p)
         if d:
             fail("state", d[0], d[1])
@@ -860,7 +934,7 @@ def snapshot_difference(ns, ps, p):
         if isinstance(pm, tuple):
             return ("memory-unreadable", "exported memory cannot be read: %s" % pm[1])
         if pm is None:
-            return ("memory", "no exported memory")
+            return None        # imported (not exported) memory: V8 side shows it, the ppci API does not
         if nm["pages"] != pm["pages"]:
             return ("memory-size", "memory has %d pages, V8 has %d" % (pm["pages"], nm["pages"]))
         if nm["runs"] != pm["runs"]:
@@ -887,17 +961,14 @@ def report(p, case, fails):
         klass = f["klass"]
         if f["kind"] == "wrong" and (op, f["target"]) in general:
             klass = "general"
-        if f["kind"] in ("no-trap", "kills-process", "hang"):
-            op = "unreachable" if klass.startswith("unreachable") else op_family(op)
-        if f["kind"] == "state" and sec == "M":
-            op = op_family(op)
+        op = "unreachable" if klass.startswith("unreachable") else key_op(op)
         gk = (op, f["kind"], klass)
         groups.setdefault(gk, {}).setdefault(f["target"], []).append(f)
     for (op, kind, klass), by_t in sorted(groups.items()):
         targets = sorted(by_t)
         tname = "both" if len(targets) == 2 else targets[0]
         first = min((f for fs in by_t.values() for f in fs), key=lambda f: (f["i"], f["target"]))
-        key = "%s/%s/%s/%s/%s" % (sec, op, kind, klass, tname)
+        key = "%s/%s/%s/%s" % (op, kind, klass, tname)
         wit = dict(case["wit"])
         wit.update(sec=sec, unit=first["unit"], ci=first["ci"], target=first["target"])
         n = sum(len(v) for v in by_t.values())
@@ -939,7 +1010,7 @@ def process_case(p, case, node_res, depth=0):
         if case["rebuild"] is not None and len(case["units"]) > 1:
             continue       # bisected below
         unit = case["info"][-1]["op"] if case["info"] else "?"
-        key = "%s/%s/instantiate/%s/%s" % (case["sec"], unit, target, err[3].split("/", 1)[1] if len(err) > 3 and "/" in err[3] else err[0])
+        key = "%s/instantiate/%s/%s" % (key_op(unit), target, err[3].split("/", 1)[1] if len(err) > 3 and "/" in err[3] else err[0])
         wit = dict(case["wit"])
         wit.update(sec=case["sec"], unit=case["info"][0]["unit"] if case["info"] else None, ci=0, target=target)
         p.violation(key, "instantiate(target=%r) of a V8-valid module raised %s: %s (%s)" % (target, err[0], err[1], err[2]), wit)
@@ -972,7 +1043,7 @@ def process_case(p, case, node_res, depth=0):
                 diverged = True
         if diverged:
             continue
-        if r.get("final") is not None and node_res.get("final") is not None:
+        if r.get("final") is not None and node_res.get("final") is not None and not case["stateless"]:
             p.add()
             d = snapshot_difference(node_res["final"], r["final"], p)
             if d:
@@ -1026,22 +1097,23 @@ def replay(w):
     sec = w["sec"]
     if sec == "N":
         case = case_N(w["tier"], 0, only=w["unit"])
-        keep = [i for i, inf in enumerate(case["info"]) if inf["ci"] == w["ci"]]
-        case["calls"] = [case["calls"][i] for i in keep]
-        case["info"] = [case["info"][i] for i in keep]
     elif sec == "M":
         case = case_M(w["tier"], w["variant"])
-        case["calls"] = case["calls"][:w["ci"] + 1]
-        case["info"] = case["info"][:w["ci"] + 1]
     elif sec == "C":
         us = [u for u in skeleton_units(w["depth"]) if u[0] == w["unit"]]
         case = case_C(w["depth"], us, {"depth": w["depth"]})
-        case["calls"] = case["calls"][:w["ci"] + 1]
-        case["info"] = case["info"][:w["ci"] + 1]
     else:
         case = dict(extra_cases())[w["name"]]()
-        case["calls"] = case["calls"][:w["ci"] + 1]
-        case["info"] = case["info"][:w["ci"] + 1]
+        if case["units"] is not None:
+            us = [u for u in case["units"] if u[0] == w["unit"]]
+            if us:
+                case = case["rebuild"](us)
+    if case["stateless"]:
+        keep = [i for i, inf in enumerate(case["info"]) if inf["ci"] == w["ci"] and inf["unit"] == w["unit"]]
+    else:
+        keep = list(range(min(len(case["calls"]), w["ci"] + 1)))
+    case["calls"] = [case["calls"][i] for i in keep]
+    case["info"] = [case["info"][i] for i in keep]
     p = Partial()
     nr = node.run([node_job(case)])[0]
     process_case(p, case, nr)
